@@ -17,7 +17,8 @@ RULE = ('correspondence: random histories on a real Fit (rack place/insert/free/
         'the protocol), the public snapshot must agree with them, every private restriction register must equal the '
         'model register (L2), and fit.validate(skip) must equal validateSpec and the register-based validate for '
         'skip = {} , one random subset and (every 4th step) all 2^k subsets of k <= 4 sampled types (L1). '
-        'Non-trivial = observation whose validation data is non-empty; distinct by (failing types, rack shapes).')
+        'Non-trivial = observation whose validation data is non-empty; distinct by (failing types, rack shapes).'
+        ' Also: every item on the fit is loaded exactly when the current source knows its type; the malformed stream re-uses a charge that sits in another module.')
 ASSUMPTIONS = [
     'modified attribute values are taken from the impl (the calculator is not re-modelled here; C01/C02 cover it)',
     'autocharges are outside the generated universes (no effect of the universe defines one)',
